@@ -297,6 +297,53 @@ template <class M> int run(const char *file, const std::vector<std::string> &voc
   return 0;
 }
 
+// lmq <file> virtual <vocab> [load_method=..] [enumerate=1]: the type-erased loader lm::ngram::LoadVirtual (what the Python module and
+// type-agnostic programs use) -- same head line as the typed run; "S" lines answer "probbits len indep | ..." through BaseFullScore
+static int run_virtual(const char *file, const std::vector<std::string> &vocab, Opts &opt) {
+  Config config;
+  config.messages = NULL; config.show_progress = false; config.arpa_complain = Config::NONE;
+  if (opt.kv.count("load_method")) {
+    const std::string &l = opt.kv["load_method"];
+    config.load_method = l == "lazy" ? util::LAZY : l == "populate" ? util::POPULATE_OR_LAZY : l == "populate_read" ? util::POPULATE_OR_READ : util::READ;
+  }
+  Collect collect;
+  if (opt.kv.count("enumerate")) config.enumerate_vocab = &collect;
+  try {
+    lm::base::Model *m = lm::ngram::LoadVirtual(file, config);
+    std::cout << "loaded order=" << (unsigned)m->Order() << " eos=" << m->BaseVocabulary().EndSentence();
+    { ModelType mt; bool bin = RecognizeBinary(file, mt); std::cout << " binary=" << (bin ? (int)mt : -1); }
+    if (opt.kv.count("enumerate")) {
+      std::cout << " enum=";
+      for (size_t i = 0; i < collect.items.size(); ++i) std::cout << (i ? "," : "") << collect.items[i];
+    }
+    std::cout << std::endl;
+    std::vector<lm::WordIndex> to_model;
+    for (size_t i = 0; i < vocab.size(); ++i) to_model.push_back(m->BaseVocabulary().Index(vocab[i]));
+    std::vector<char> a(m->StateSize()), b(m->StateSize());
+    std::string line;
+    while (std::getline(std::cin, line)) {
+      std::istringstream in(line); std::string cmd; in >> cmd;
+      if (cmd != "S") { std::cout << "?\n"; continue; }
+      int bos; in >> bos;
+      if (bos) m->BeginSentenceWrite(&a[0]); else m->NullContextWrite(&a[0]);
+      std::ostringstream o; std::string x; bool first = true;
+      while (in >> x) {
+        lm::FullScoreReturn r = m->BaseFullScore(&a[0], to_model.at(strtoul(x.c_str(), NULL, 16)), &b[0]);
+        if (!first) o << " | ";
+        first = false;
+        o << std::hex << bits(r.prob) << ' ' << std::dec << (unsigned)r.ngram_length << ' ' << (r.independent_left ? 1 : 0);
+        a.swap(b);
+      }
+      std::cout << o.str() << '\n';
+    }
+    delete m;
+  } catch (const std::exception &e) {
+    std::string w(e.what()); for (size_t i = 0; i < w.size(); ++i) if (w[i] == '\n') w[i] = ' ';
+    std::cout << "load-exception " << w << std::endl;
+  }
+  return 0;
+}
+
 // lmq --sizes : one request per line  "TSZ <array 0|1> <pointer_bhiksha_bits> <counts,>"  ->  "<SortedVocabulary::Size> <TrieSearch::Size>"
 static int sizes_mode() {
   std::string line;
@@ -328,6 +375,7 @@ int main(int argc, char **argv) {
     if (e != std::string::npos) opt.kv[a.substr(0, e)] = a.substr(e + 1);
   }
   std::string t(argv[2]);
+  if (t == "virtual") return run_virtual(argv[1], vocab, opt);
   if (t == "probing") return run<ProbingModel>(argv[1], vocab, opt);
   if (t == "rest") return run<RestProbingModel>(argv[1], vocab, opt);
   if (t == "trie") return run<TrieModel>(argv[1], vocab, opt);
